@@ -9,6 +9,9 @@ import (
 )
 
 func (route *Route) Validate() error {
+	if route == nil {
+		return errorsmod.Wrap(ErrInvalidRoute, "nil route")
+	}
 	if err := route.validateRecursive(); err != nil {
 		return errorsmod.Wrapf(ErrInvalidRoute, "%s", err)
 	}
@@ -23,11 +26,20 @@ func (route *Route) Validate() error {
 }
 
 func (route *Route) validateRecursive() error {
+	if route == nil {
+		return fmt.Errorf("nil route")
+	}
 	switch strategy := route.Strategy.(type) {
 	case *Route_Pool:
+		if strategy.Pool == nil {
+			return fmt.Errorf("nil pool")
+		}
 		return nil
 	case *Route_Series:
 		series := strategy.Series
+		if series == nil {
+			return fmt.Errorf("nil series")
+		}
 
 		if len(series.Routes) == 0 {
 			return fmt.Errorf("empty series")
@@ -52,6 +64,9 @@ func (route *Route) validateRecursive() error {
 		return nil
 	case *Route_Parallel:
 		parallel := strategy.Parallel
+		if parallel == nil {
+			return fmt.Errorf("nil parallel")
+		}
 
 		if len(parallel.Routes) == 0 {
 			return fmt.Errorf("empty parallel")
